@@ -101,7 +101,7 @@ PROPS = {
         'note': 'case-mapping laws are asserted on scripts with 1:1 case maps only; documented ambiguities are accepted both ways (entity spelling of the apostrophe, pluralize of -1, indent of whitespace-only lines / blank first line, range with start > end); round tolerates one unit of the requested place',
         'rule': "one evaluation = one render; a cell = (built-in, receiver kind, argument name:state:argument kind, ok/err) for the matrix and (law family, input class) for the laws",
         'exhaustive': 'the built-in x receiver x argument-state matrix is complete; law inputs are sampled',
-        'must_observe': ['matrix_builtins_completed', 'string_law_cases', 'number_law_cases', 'ranges_at_the_size_cap'],
+        'must_observe': ['matrix_builtins_completed', 'string_law_cases', 'number_law_cases', 'ranges_at_the_size_cap', 'order_independence_comparisons'],
     },
     'C08': {
         'scale': {'quick': 5, 'thorough': 5},
